@@ -2,6 +2,7 @@
 #include "recipes.hpp"
 
 #include <cmath>
+#include <cstdlib>
 #include <algorithm>
 
 namespace tbfsim {
@@ -159,6 +160,20 @@ Scenario generate(const std::string& prop, uint64_t seed, const std::string& tie
         sc.executor = ex[r.below(prop == "C03" ? 5 : 7)];
     }
 
+    // ordering
+    {
+        int pm = 100, pp = 0, ph = 0;
+        if (prop == "C02") { pm = 50; pp = 30; ph = 20; }
+        else if (prop == "C03" || prop == "C15") { pm = 60; pp = 25; ph = 15; }
+        else if (prop == "C09") { pm = 70; pp = 15; ph = 15; }
+        else if (prop == "C12") { pm = 70; pp = 30; ph = 0; }
+        else if (prop == "C13") { pm = 60; pp = 20; ph = 20; }
+        const int x = int(r.below(100));
+        sc.ordering = x < pm ? "morton" : (x < pm + pp ? "periodic" : "hilbert");
+        (void)ph;
+        if (const char* f = getenv("TBFSIM_FORCE_ORDERING")) sc.ordering = f;
+    }
+
     sc.height = int(pickWeighted(r, {{1, 3}, {2, 7}, {3, 25}, {4, 32}, {5, 25}, {6, 8}}));
     // box
     const double scales[] = {1e-3, 0.1, 1.0, 1.0, 1.0, 7.5, 1e3};
@@ -202,7 +217,18 @@ Scenario generate(const std::string& prop, uint64_t seed, const std::string& tie
     if (prop != "C18" && r.chance(0.25)) sc.threadsExec = 1 + int(r.below(16));
 
     HistOp full; full.op = "execute"; full.flags = F_ALL;
-    if (prop == "C03" || prop == "C02" || prop == "C15" || prop == "C09") {
+    bool topSequence = false;
+    if (sc.isPeriodic() && !sc.isTsm() && sc.height >= 2 && prop != "C12" && prop != "C13" && r.chance(0.6)) {
+        // the documented periodic sequence: bottom-to-top, top tree, transfer, top-to-bottom
+        sc.topLevels = int(r.below(5)) - 1;
+        sc.upper = 1;
+        HistOp a = full, t, b = full, c = full;
+        a.flags = F_P2M | F_M2M; t.op = "top"; t.flags = F_ALL; b.flags = F_M2L | F_P2P; c.flags = F_L2L | F_L2P;
+        sc.history = {a, t, b, c};
+        topSequence = true;
+    }
+    if (topSequence) {
+    } else if (prop == "C03" || prop == "C02" || prop == "C15" || prop == "C09") {
         const int hk = int(r.below(10));
         if (hk < 6) sc.history.push_back(full);
         else if (hk < 8) {   // documented three-stage split
